@@ -600,7 +600,7 @@ fn run_position(case: &Value) -> Report {
 }
 
 /// how a condition / scrutinee can end, just before the `{` of the body
-const COND_ENDS: [(&str, &str); 10] = [
+const COND_ENDS: [(&str, &str); 22] = [
     ("identifier", "c"),
     ("qualified-path", "k == Color::Red"),
     ("qualified-path-alone", "Lib::flag"),
@@ -611,6 +611,19 @@ const COND_ENDS: [(&str, &str); 10] = [
     ("negated-identifier", "!c"),
     ("parenthesised", "(c)"),
     ("comparison-of-identifiers", "a == b"),
+    // struct literals inside a condition: the `{` of the literal against the `{` of the body
+    ("fieldless-literal-then-comparison", "Empty { } == x"),
+    ("fieldless-literal-then-inequality", "Empty { } != x"),
+    ("fieldless-literal-then-field", "Empty { }.fld"),
+    ("fieldless-literal-then-conjunction", "Empty { } && c"),
+    ("fieldless-literal-then-sum", "Empty { } + x"),
+    ("fieldless-literal-in-the-middle", "x == Empty { } && c"),
+    ("fieldless-literal-last", "x == Empty { }"),
+    ("fieldless-literal-no-blank", "Empty {} == x"),
+    ("literal-with-fields-first", "P { a: 1 } == x"),
+    ("literal-with-fields-last", "x == P { a: 1 }"),
+    ("shorthand-literal-first", "P { a, b } == x"),
+    ("literal-argument", "f(Empty { }) == x"),
 ];
 /// bodies that begin like the field list of a struct literal would
 const BLOCK_BODIES: [(&str, &str); 7] = [
